@@ -1004,6 +1004,39 @@ def wl_triangles(run, rng, idx):
                      % (words[k], gap, s0), case)
             return
         verts.append(v)
+    # the library's own fixed points of the three rotation products, through every
+    # option, are those vertices (the triangle of the statement is "spanned by the
+    # fixed points of the three rotation products").  Seeded change C08-r6-1: the
+    # unsorted branch of Isometry._fixpoint_data lost the key that puts real
+    # eigenvectors first.
+    for k in range(3):
+        if labs[k] == 0:
+            # (a parabolic product: its fixed point is a defective eigenvector,
+            # accurate to ~sqrt(eps) only; C15 judges those with their conditioning)
+            continue
+        T = iso[k]
+        for opt in (True, False):
+            try:
+                fp = np.asarray(T.fixed_point(max_eigval=opt).proj_data, dtype=float).reshape(-1)
+                pair0 = np.asarray(T.fixed_point_pair(sort_eigvals=opt).proj_data, dtype=float).reshape(-1, 3)[0]
+            except Exception as e:
+                mon.fail("triangle-angles/fixed_point/exception:%s" % type(e).__name__,
+                         "fixed_point(max_eigval=%r) of the image of %s raised %s: %s"
+                         % (opt, words[k], type(e).__name__, str(e)[:120]), case)
+                continue
+            for what, x in (("fixed_point(max_eigval=%r)" % opt, fp),
+                            ("fixed_point_pair(sort_eigvals=%r)[0]" % opt, pair0)):
+                nx, nv = np.linalg.norm(x), np.linalg.norm(verts[k])
+                if not (np.all(np.isfinite(x)) and nx > 0):
+                    mon.fail("triangle-angles/fixed_point/degenerate", "%s of the image of %s is zero or "
+                             "not finite" % (what, words[k]), case)
+                    continue
+                c = abs(float(np.dot(x, verts[k]))) / (nx * nv)
+                mon.judge(math.sqrt(max(0.0, 1.0 - min(1.0, c) ** 2)), 1e-6 * tolscale,
+                          "triangle-angles/fixed_point/not-the-vertex/%s" % ("ideal" if labs[k] == 0 else "interior"),
+                          "%s of the image of %s is not the fixed point of that rotation product "
+                          "(sine of the angle between the two vectors)" % (what, words[k]),
+                          dict(case, option=opt, library=x, reference=verts[k]))
     for k in range(3):
         m = labs[k]
         want = "ideal" if m == 0 else "interior"
